@@ -41,11 +41,11 @@ PREFIXES = ['@', '@a{', '@a(', '@a{k,', '@a{k,a=', '@a{k,a={', '@a{k,a="', '@a(k
 
 RULE = {
  'quick': 'exhaustive: every string of length <= 4 over the 14-symbol token alphabet {@ a 1 { } ( ) " , = # % space newline}, and every such string of length <= 3 after each of 14 state-reaching prefixes (@, @a{, @a{k,a=", @string{a=, ...), each read in strict, non-strict and capture mode; corruption: 9 three-entry files x every token of the middle entry x {delete, duplicate, truncate, replace by each of 12 token kinds}; random token soup, random Unicode noise, deep nesting around the limit of 100, pinned defect inputs; the token patterns against the live regex objects on all strings of length <= 4 over per-pattern alphabets; Scanner.get_token / skip_to / normalize_whitespace separately. distinct = distinct (function, argument); non-trivial = at least one error reported or at least one entry read.',
- 'thorough': 'as quick with bounds 5 (plain) / 4 (after prefixes), pattern strings of length <= 5, 20x more random cases',
+ 'thorough': 'as quick plus every string @w with |w| = 4, strings of length <= 4 after 2 of the prefixes, pattern strings of length <= 5, 10x more random cases',
 }
 RULE = RULE['quick'] + ' || thorough: ' + RULE['thorough']
 EXHAUSTIVE = {'quick': 'all strings of length <= 4 over {@ a 1 { } ( ) " , = # % space newline}; all strings of length <= 3 over the same alphabet after each of 14 prefixes',
-              'thorough': 'all strings of length <= 5 over {@ a 1 { } ( ) " , = # % space newline}; all strings of length <= 4 after each of 14 prefixes'}
+              'thorough': 'all strings of length <= 4 and all strings @w with |w| = 4 over {@ a 1 { } ( ) " , = # % space newline}; all strings of length <= 3 after each of 14 prefixes and of length <= 4 after 2 of them'}
 TRUSTED_BASE = ['modelled (not verified) code: pybtex/database/input/bibtex.py LowLevelParser and Parser, pybtex/scanner.py Scanner, textutils.normalize_whitespace, BibliographyData.add_entry/add_to_preamble, errors.report_error (three modes), LowLevelParser.get_error_context (only its partial operation), split_name_list and Person through Model/BibtexStr.v and Model/Names.v; regexes are hand-written matchers swept against the live objects',
                 'non-strict mode is observed through the warnings printed to pybtex.io.stderr (replaced by a StringIO)']
 ASSUMPTIONS = ['Python str.isspace / regex \\s = the 29 code points of Base/PyChar.is_space', 'str.lower() = ASCII lower on the characters used as keys / identifiers (non-ASCII cased letters are outside the generated domain)']
@@ -152,12 +152,16 @@ def gen(tier, rng):
         yield ('pinned', 1, [t])
         yield ('pinned', 2, [2, t])
         yield ('pinned', 2, [0, t])
-    n_plain, n_pref = (4, 3) if tier == 'quick' else (5, 4)
+    n_plain, n_pref = 4, 3
     for n in range(0, n_plain + 1):
         for tup in itertools.product(TOK, repeat=n):
             yield ('exhaustive', 1, [''.join(tup)])
+    if tier == 'thorough':      # length 5: the strings that start a command
+        for tup in itertools.product(TOK, repeat=4):
+            yield ('exhaustive', 1, ['@' + ''.join(tup)])
     for p in PREFIXES:
-        for n in range(0, n_pref + 1):
+        deep = tier == 'thorough' and p in ('@a{k,', '@a{k,a=')
+        for n in range(0, n_pref + (2 if deep else 1)):
             for tup in itertools.product(TOK, repeat=n):
                 yield ('exhaustive_prefixed', 1, [p + ''.join(tup)])
     for c in corruption_cases(tier, rng):
@@ -165,7 +169,7 @@ def gen(tier, rng):
     # random token soup / noise
     words = ['@', '@a', '@string', '@preamble', '@comment', '{', '}', '(', ')', '"', ',', '=', '#', '%', 'k', 'a', 'author', 'jan', '12', 'x y',
              ' and ', '\\', '~', '{\\x}', ' ', '\n', '\r', '\r\n', '\t', '\x85', ' ', '\xa0', '　', '\x1c', '-', '.', '€', '→', '°', '\x00', '\x7f', 'K', 'A']
-    nrand = 1500 if tier == 'quick' else 30000
+    nrand = 1500 if tier == 'quick' else 15000
     for i in range(nrand):
         s = ''.join(rng.choice(words) for _ in range(rng.randint(1, 30)))
         yield ('random_soup', 1, [s])
@@ -207,11 +211,11 @@ def gen(tier, rng):
     patsets = [[[0]], [[4, 40], [4, 123]], [[4, 34], [4, 123], [3], [0]], [[1]], [[2]], [[4, 44]], [[4, 35]], [[4, 61]], [[4, 125]], [[4, 41]]]
     sal = ['a', '1', ' ', '\n', '\r', '{', ',', '"', '\x85', '@']
     for ps in patsets:
-        for n in range(0, 4 if tier == 'quick' else 5):
+        for n in range(0, 4):
             for tup in itertools.product(sal, repeat=n):
                 yield ('get_token', 6, [ps, ''.join(tup)])
     for chars in ['@', '}{', '"}{']:
-        for n in range(0, 5 if tier == 'quick' else 6):
+        for n in range(0, 5):
             for tup in itertools.product(['a', '\n', '\r', '{', '}', '"', '@'], repeat=n):
                 yield ('skip_to', 7, [chars, ''.join(tup)])
     for n in range(0, 6 if tier == 'quick' else 7):
